@@ -139,6 +139,27 @@ def preexisting_group_cases(ck):
             out.append({"segs": [list(x) for x in segs], "groups": [list(g) for g in gs], "notes": {"empty_section_with_notes": "kept for later"},
                         "root": root, "reorder": bool(ci % 2), "optimise": False, "ref": ref,
                         "kind": "stored:pre-existing-section-groups"})
+    # explicitly defined but incomplete (or empty) DEFAULT groups, and other groups that include them and have members of
+    # their own; both values of optimise_segment_groups: the denotation of every old group must survive
+    for ti, segs in enumerate(trees):
+        ref = reference(segs)
+        sids = [x[0] for x in segs]
+        half = sids[:max(1, len(sids) // 2)]
+        rest = [i for i in sids if i not in half]
+        for di, dname in enumerate(DEFAULTS):
+            for variant in range(3):
+                dmembers = [] if variant == 2 else half[:1 + variant * (len(half) - 1)]
+                extra = (rest or sids)[:2] + ([half[0]] if variant == 1 else [])
+                gs = [[dname, list(dmembers), [], None],
+                      ["uses_" + dname, list(extra), [dname], None],
+                      ["uses_twice", list(rest[:1] or sids[:1]), ["uses_" + dname, dname], None]]
+                if variant == 1:
+                    gs.reverse()        # includers declared before what they include
+                for opt in (True, False):
+                    out.append({"segs": [list(x) for x in segs], "groups": [list(g) for g in gs], "notes": {},
+                                "root": ref["root"] if (variant + di) % 2 == 0 else rng.choice(sids),
+                                "reorder": bool((di + variant) % 2), "optimise": opt, "ref": ref,
+                                "kind": "stored:incomplete-default-groups"})
     return out
 
 
@@ -250,6 +271,28 @@ def descendants(ref, root):
     return out
 
 
+def denotation(groups, gid, all_ids):
+    """the segment set a group denotes: its members and, transitively, those of the groups it includes (own closure
+    over the group rows, not the library's get_all_segments_in_group).  An included id that is not defined denotes every
+    segment when it is 'all' (the library's documented convention) and is kept as a marker otherwise."""
+    by = {}
+    for g in groups:
+        by.setdefault(g[0], g)
+    seen, out, stack = set(), set(), [gid]
+    while stack:
+        x = stack.pop()
+        if x in seen:
+            continue
+        seen.add(x)
+        g = by.get(x)
+        if g is None:
+            out |= set(all_ids) if x == "all" else {"undefined:" + x}
+            continue
+        out |= set(g[1])
+        stack.extend(g[2])
+    return out
+
+
 def predicate(case, out):
     """the clauses of C16 on the implementation's result -> list of (clause, expected, observed)"""
     bad = []
@@ -335,6 +378,12 @@ def predicate(case, out):
                 bad.append(("old-group-changed", g, o))
         elif o[3] != g[3]:
             bad.append(("old-group-changed", g, o))
+    all_ids = [x[0] for x in segs]
+    for g in pre:
+        before, after = denotation(pre, g[0], all_ids), denotation(out["groups"], g[0], all_ids)
+        if before != after:
+            bad.append(("old-group-denotation-changed", {g[0]: sorted(map(str, before))},
+                        {g[0]: sorted(map(str, after)), "groups after": out["groups"]}))
     if case["optimise"] and "resolved_before" in out:
         for (g, b), (_, a) in zip(out["resolved_before"], out["resolved_after"]):
             if "ok" in b and ("ok" not in a or sorted(set(a["ok"])) != sorted(set(b["ok"]))):
@@ -471,7 +520,7 @@ def signature(case):
         shape = hash(shape) % 100003
     return json.dumps([shape, idx[case["root"]], tuple(by[x][3] is not None for x in order[:12]), len(case["groups"]),
                        case["reorder"], case["optimise"], by[case["root"]][3] is None, case.get("history"),
-                       [g[0] for g in case["groups"]] if case["kind"].startswith("stored:pre") else None], default=str)
+                       [g[0] for g in case["groups"]] if case["kind"].startswith("stored:") else None], default=str)
 
 
 def run(ck):
